@@ -75,9 +75,9 @@ PROPS = {
                  "distinct_schedules = distinct scheduling-decision hashes."),
         "suites": [
             {"name": "conc-lin", "kind": "random", "scn": "conc", "variant": "asan", "opts": {},
-             "runs_quick": 2500, "time_quick": 30, "runs_thorough": 200000, "time_thorough": 500},
+             "runs_quick": 2500, "time_quick": 30, "runs_thorough": 1500000, "time_thorough": 500},
             {"name": "conc-tsan", "kind": "random", "scn": "conc", "variant": "tsan", "opts": {},
-             "runs_quick": 800, "time_quick": 25, "runs_thorough": 60000, "time_thorough": 400},
+             "runs_quick": 800, "time_quick": 25, "runs_thorough": 500000, "time_thorough": 400},
         ],
         "min_counters": {"reads_overlapping_writes": 500},
         "assumptions": ["single writer => writer states are totally ordered; src_remove is two instants (IPv4 then IPv6), as the API does",
